@@ -203,6 +203,10 @@ type AProg struct {
 	Backing string `json:"backing"`
 	Root    []int  `json:"root_dims"`
 	Ops     []AOp  `json:"ops"`
+	// Magnitude: "" = element values are the small unique counters 1,2,3,...; "A"/"B" = integer element types get the
+	// counters shifted to the far ends of their range (beyond 2^53 for 64-bit types, beyond 2^24 / near 2^31 for 32-bit
+	// ones), where a detour through float64/float32 or a narrower integer loses bits. Floats are not shifted.
+	Magnitude string `json:"magnitude,omitempty"`
 }
 
 type progOpts struct {
@@ -225,6 +229,9 @@ func genProgram(r *core.Rand, typ, backing string, o progOpts) *AProg {
 		root[r.Intn(nd)] = r.IntRange(1, 3)
 	}
 	p := &AProg{Model: "array/" + typ, Type: typ, Backing: backing, Root: root}
+	if typ != "float64" && typ != "float32" && r.Bool(0.3) {
+		p.Magnitude = []string{"A", "B"}[r.Intn(2)]
+	}
 	sim := newSim[float64](root)
 	next := 1.0
 	fresh := func(n int) []float64 {
@@ -420,6 +427,7 @@ type shadowSim[T Num] struct {
 	lastErr     bool      // the op must fail (reshape)
 	lastAlias   bool
 	lastTransit bool // result is a transient copy: compare values only
+	base        T    // magnitude shift of the element values (magBase)
 }
 
 func newSim[T Num](root []int) *shadowSim[T] {
@@ -429,12 +437,77 @@ func newSim[T Num](root []int) *shadowSim[T] {
 	return s
 }
 
-func conv[T Num](vals []float64) []T {
+func conv[T Num](vals []float64, base T) []T {
 	r := make([]T, len(vals))
 	for i, v := range vals {
-		r[i] = T(v)
+		r[i] = T(v) + base
 	}
 	return r
+}
+
+// magBase is the shift applied to the unique counters for p's magnitude mode. cSafe: the program also runs on C-backed
+// arrays, whose int/uint elements are 4-byte C ints.
+func magBase[T Num](mag string, cSafe bool) T {
+	if mag == "" {
+		return 0
+	}
+	a := mag == "A"
+	var z T
+	var i64 int64
+	var u64 uint64
+	switch any(z).(type) {
+	case int64:
+		i64 = 1<<53 + 1
+		if !a {
+			i64 = -(1 << 62) - 1
+		}
+		return T(i64)
+	case uint64:
+		u64 = 1<<63 + 1
+		if !a {
+			u64 = 1<<53 + 1
+		}
+		return T(u64)
+	case int:
+		if cSafe {
+			i64 = 1<<30 + 1
+			if !a {
+				i64 = -(1 << 24) - 1
+			}
+			return T(i64)
+		}
+		i64 = 1<<53 + 1
+		if !a {
+			i64 = -(1 << 62) - 1
+		}
+		return T(i64)
+	case uint:
+		if cSafe {
+			u64 = 1<<31 + 1
+			if !a {
+				u64 = 1<<24 + 1
+			}
+			return T(u64)
+		}
+		u64 = 1<<63 + 1
+		if !a {
+			u64 = 1<<53 + 1
+		}
+		return T(u64)
+	case int32:
+		i64 = 1<<30 + 1
+		if !a {
+			i64 = -(1 << 24) - 1
+		}
+		return T(i64)
+	case uint32:
+		u64 = 1<<31 + 1
+		if !a {
+			u64 = 1<<24 + 1
+		}
+		return T(u64)
+	}
+	return 0
 }
 
 // apply performs op on the shadow.  If tmp != nil, a fresh source view (for Src<0) is
@@ -447,7 +520,7 @@ func (s *shadowSim[T]) apply(op *AOp, tmp **sView[T]) {
 			return s.views[op.Src]
 		}
 		f := newShadowRoot[T](-1, dims)
-		copy(f.st.data, conv[T](op.Vals))
+		copy(f.st.data, conv[T](op.Vals, s.base))
 		return f
 	}
 	switch op.K {
@@ -456,12 +529,12 @@ func (s *shadowSim[T]) apply(op *AOp, tmp **sView[T]) {
 		s.views = append(s.views, c)
 		s.lastNew = c
 	case "set", "set1", "set2", "set3":
-		v.set(op.Loc, T(op.Vals[0]))
+		v.set(op.Loc, T(op.Vals[0])+s.base)
 	case "apply", "apply1":
 		loc := cpInts(op.Loc)
 		for i, x := range op.Vals {
 			loc[op.Dim] = op.Loc[op.Dim] + i*op.St
-			v.set(loc, T(x))
+			v.set(loc, T(x)+s.base)
 		}
 	case "applyslice":
 		src := srcView(op.Dims)
